@@ -164,7 +164,9 @@ Fixpoint ann_stmt (s : cstmt E) (bl : list block) : cstmt E * list block * bool 
   | _ => (s, bl, false)
   end.
 
-(* cover.annotateStmts *)
+(* cover.annotateStmts.  For the empty list the loop below returns ([], bl) without touching
+   the block table, which is the early return "if len(stmts) == 0 { return stmts }"; whether
+   that empty list is nil or not only matters for action bodies, see [ann_body]. *)
 Definition ann_stmts (ss : list (cstmt E)) (bl : list block) : list (cstmt E) * list block :=
   ann_loop ann_stmt ss bl [] [].
 
@@ -176,14 +178,13 @@ Fixpoint ann_lists (ls : list (list (cstmt E))) (bl : list block) : list (list (
               let '(t', bl2) := ann_lists t bl1 in (l' :: t', bl2)
   end.
 
-(* annotateActions.  annotateStmts starts from [var res ast.Stmts] (nil) and only appends:
-   its result is nil exactly when nothing was appended, whatever the argument was, so a
-   non-nil empty body {} comes back as nil. *)
+(* annotateActions.  annotateStmts returns an empty list unchanged ("if len(stmts) == 0
+   { return stmts }": nil stays nil, a bare {} stays a non-nil empty list); a non-empty list
+   comes back non-empty (the first thing appended to res is a counter). *)
 Definition ann_body (b : option (list (cstmt E))) (bl : list block) : option (list (cstmt E)) * list block :=
   match b with
   | None => (None, bl)
-  | Some ss => let '(r, bl1) := ann_stmts ss bl in
-               (match r with [] => None | _ :: _ => Some r end, bl1)
+  | Some ss => let '(r, bl1) := ann_stmts ss bl in (Some r, bl1)
   end.
 Fixpoint ann_actions (acts : list (action E)) (bl : list block) : list (action E) * list block :=
   match acts with
